@@ -58,6 +58,10 @@ class NeedInvariant(Unsupported):
     pass
 
 
+class FrameViolation(Unsupported):
+    """The verified code writes to state that outlives the call (a module-level object)."""
+
+
 class Path:
     def __init__(self, ctx, kind, value=None, exc=None):
         self.pc = list(ctx.pc)
@@ -425,6 +429,7 @@ class Interp:
             self.exec_stmt(s, fr)
 
     def exec_stmt(self, s, fr):
+        self.cur_frame = fr
         m = getattr(self, "s_" + type(s).__name__, None)
         if m is None:
             raise Unsupported(f"statement {type(s).__name__} at {fr.fname}:{s.lineno}")
@@ -453,6 +458,8 @@ class Interp:
     def s_AugAssign(self, s, fr):
         cur = self.eval(_load(s.target), fr)
         v = self.eval(s.value, fr)
+        if isinstance(cur, (list, dict)):
+            self.check_frame(cur, s, fr)
         if isinstance(cur, list) and isinstance(s.op, ast.Add):
             # in-place list extension keeps identity (aliases see it)
             if isinstance(v, (list, tuple)):
@@ -471,6 +478,8 @@ class Interp:
         elif isinstance(t, ast.Subscript):
             base = self.eval(t.value, fr)
             idx = self.eval(t.slice, fr)
+            if isinstance(base, (list, dict)):
+                self.check_frame(base, t, fr)
             if isinstance(base, (list, dict)) and not is_sym(idx):
                 try:
                     base[idx] = v
@@ -486,6 +495,15 @@ class Interp:
                 raise Unsupported("attribute assignment")
         else:
             raise Unsupported(f"assignment target {type(t).__name__}")
+
+    def check_frame(self, obj, node, fr):
+        """Frame condition of every contract: nothing that outlives the call is modified."""
+        g = getattr(fr, "globals", None)
+        maps = g.maps if hasattr(g, "maps") else [g]
+        for m in maps:
+            for name, val in list(m.items()):
+                if val is obj:
+                    raise FrameViolation(f"{fr.fname}:{getattr(node, 'lineno', '?')}: assignment into module-level object {name!r}")
 
     def unpack(self, v, n, node):
         if isinstance(v, (tuple, list)):
@@ -919,6 +937,13 @@ class Interp:
         return out
 
     def e_Call(self, e, fr):
+        # x.append(v) on a symbolic-length list bound to a local name: functional update of the binding
+        if (isinstance(e.func, ast.Attribute) and e.func.attr == "append" and isinstance(e.func.value, ast.Name)
+                and isinstance(fr.locals.get(e.func.value.id), VSeq) and len(e.args) == 1 and not e.keywords):
+            cur = fr.locals[e.func.value.id]
+            v = self.eval(e.args[0], fr)
+            fr.locals[e.func.value.id] = self.binop(ast.Add(), cur, [v], e)
+            return None
         f = self.eval(e.func, fr)
         args = self.eval_elts(e.args, fr)
         kwargs = {}
